@@ -254,7 +254,7 @@ func (w *world) digest() string {
 		if x.HeadCount != len(x.Head) {
 			extra = fmt.Sprintf(":headChunkCount=%d", x.HeadCount)
 		}
-		parts = append(parts, fmt.Sprintf("s%d:mm=%s:hd=%s:ring=%d/%d/%d/%s%s", s, ints(x.Mmapped), ints(x.Head), x.RingCap, x.RingFirst, x.RingCount, u64s(x.RingIDs, ","), extra))
+		parts = append(parts, fmt.Sprintf("s%d:mm=%s:hd=%s:ring=%d/%s%s", s, ints(x.Mmapped), ints(x.Head), x.RingCount, u64s(x.RingIDs, ","), extra))
 	}
 	g := w.head.VerifIsoGlobal()
 	rd := "-"
@@ -841,12 +841,15 @@ func main() {
 		maxPer, _ = strconv.Atoi(v)
 	}
 	for _, cf := range exhaustiveConfigs(c.Tier) {
-		// quick tier: an evenly strided sample of at most ~1000 of the interleavings; thorough: all of them
+		// all interleavings when there are at most 1000 (quick) / 12000 (thorough), else an evenly strided sample of that size
 		totalScheds := 0
 		interleavings(cf.threads(), func([]string) bool { totalScheds++; return true })
-		stride := 1
-		if c.Tier != "thorough" && totalScheds > 1000 {
-			stride = (totalScheds + 999) / 1000
+		stride, limit := 1, 1000
+		if c.Tier == "thorough" {
+			limit = 12000
+		}
+		if totalScheds > limit {
+			stride = (totalScheds + limit - 1) / limit
 		}
 		k, idx := 0, 0
 		interleavings(cf.threads(), func(sched []string) bool {
